@@ -136,7 +136,15 @@ def fam_readloop(ctx):
         c = b.calls_matching(r"BufRead>?::read_line$")[0]
         ok = zero_read_leaves_loop(b, c)
         (ctx.ok if ok else ctx.bad)("ST.readloop", [i], "Ok(0) leaves the loop" if ok else "no exit on this read's own Ok(0)", c.loc())
-    return {"must_report": ["ST.readloop|read_loop_total_bad"], "must_not_report": ["ST.readloop|read_loop_eof_ok"]}
+    from .lib import read_count_uses
+    for i in ("short_read_used_ok", "short_read_ignored_bad"):
+        b = body(ctx, i)
+        c = b.calls_matching(r"\bRead>?::read$")[0]
+        uses, counts = read_count_uses(b, c)
+        ok = bool(uses - {"cmp"})
+        (ctx.ok if ok else ctx.bad)("ST.readloop", [i], "the count bounds what is consumed" if ok else "the count is only compared", c.loc())
+    return {"must_report": ["ST.readloop|read_loop_total_bad", "ST.readloop|short_read_ignored_bad"],
+            "must_not_report": ["ST.readloop|read_loop_eof_ok", "ST.readloop|short_read_used_ok"]}
 
 
 def fam_fold(ctx):
